@@ -166,6 +166,15 @@ theorem seeds_are_residues :
 theorem seeds_distinct : (Gen.fpSeeds.map (·.2)).Nodup ∧ Gen.fpSeeds.all (fun e => decide (e.2 ≠ 0)) = true := by
   decide +kernel
 
+/-- … and far from the hash of any small integer (an empty container hashes to its bare starting value: `()`, `[]`, `set()` must not
+    look like 2, 3, 1) -/
+theorem seeds_spread :
+    Gen.fpSeeds.all (fun e => decide ((2 : Int) ^ 32 ≤ e.2) && decide (e.2 ≤ (Gen.FP_P : Int) - 2 ^ 32)) = true := by decide +kernel
+
+/-- an empty container hashes to the starting value of its kind -/
+theorem empty_container_hash (k : Nat) : (Elem.seq k []).hash = seedOf k 0 := by
+  simp [Elem.hash, Elem.hashFrom]
+
 theorem seed_range (k n : Nat) : 0 ≤ seedOf k n ∧ seedOf k n < FP.P := seedOf_range P_pos' seeds_are_residues k n
 
 /-- `_hash_element` of a set / tuple / list is the rolling hash over the items' hashes (a set: its sorted items), started from the
